@@ -40,6 +40,9 @@ def main(tier, replay=None):
     vk_run(res, "c07", plain, rd, "0,0,0,0", 0, 1500, "qmail-smtpd-process-payloads", opts=["family=payload", "maxlen=%d" % ml])
     # framing must hold whatever happens on the queue side: one failing fork/pipe/exec/read/write anywhere in a complete session
     vk_run(res, "c07", plain, rd, "0,1,0,0", 1, 900, "qmail-smtpd-framing-with-one-failing-call", opts=["family=faults"])
+    vk_run(res, "c07", plain, rd, "0,0,0,0", 0, 1500, "qmail-smtpd-process-payloads-over-a-size-limit", opts=["family=payload", "maxlen=%d" % ml, "databytes=2"])
+    # the session arriving in two pieces, cut at every byte
+    vk_run(res, "c07", plain, rd, "0,1,0,0", 1, 900, "qmail-smtpd-input-in-two-pieces", opts=["family=shortreads"])
     # ... and whatever makes the server refuse the message while it is still arriving (size limit, hop limit, over-long addresses)
     vk_run(res, "c07", plain, rd, "0,0,0,0", 0, 900, "qmail-smtpd-framing-at-the-limits", opts=["family=limits"])
     res.rule = ("every byte string over the alphabet up to the bound is fed to the real blast() of qmail-smtpd.c followed by EOF "
@@ -49,7 +52,8 @@ def main(tier, replay=None):
                 "{CR,LF,.,a} up to length %d followed by CRLF.CRLF through the real qmail-smtpd process with a recording queue program: the queued "
                 "body equals the reference decoding and is acknowledged, a bare LF yields 451 and nothing queued; and complete sessions with one failing fork/pipe/exec/read/write: after a 354 reply "
                 "exactly the message and the QUIT are answered, message lines are never executed as commands; the same for messages refused while arriving (body at the "
-                "size limit -1/0/+1, 98..101 hop fields)" % ml)
+                "size limit -1/0/+1, 98..101 hop fields), for every payload again under a 2-byte size limit (refused permanently iff the decoded body is longer, and still consumed to its own end mark), "
+                "and for complete sessions arriving in two pieces cut at every byte" % ml)
     res.assumptions = ["reference receiver/sender in seq/ref_smtp.h and c05_smtpd_blast.c follow RFC 5321 4.5.2",
                        "a line '.' CR <data> (never produced by a conforming sender) may keep or lose its dot: qmail keeps it, RFC strips it; both accepted",
                        "timeoutread/timeoutwrite and the qmail_* queue API are harness stand-ins (the queue side is C07's subject)"]
